@@ -1043,6 +1043,15 @@ fn case(src: &mut Src, ctx: &mut Ctx) -> Result<(), Fail> {
         let api = src.weighted(&[6, 1, 1]);
         let raw_mdns = if api == 2 { src.bool() } else { false };
         let mood = src.weighted(&[4, 5, 2]);
+        // one textual query in sixteen has a first label of 63, 64 or 65 octets, around the limit of a
+        // label: 63 must work, the others must be refused by start_query - never put on the wire
+        // (decided from bits of the case seed: no further draw)
+        let k = seed.rotate_right(8 * i as u32 + 5);
+        if api != 2 && k & 15 == 0 {
+            let l = [63usize, 64, 65][((k >> 4) % 3) as usize];
+            name[0] = vec![b'x'; l];
+            ctx.label(&format!("query:first-label-of-{}-octets", l));
+        }
         plans.push(Plan { at, name, qtype, api, raw_mdns, mood });
     }
     ctx.note(|| format!("node addresses {:?}; servers [{}]; {} queries", locals.iter().map(|l| l.to_string()).collect::<Vec<_>>(), fmt_addrs(&servers), nq));
@@ -1091,7 +1100,8 @@ fn case(src: &mut Src, ctx: &mut Ctx) -> Result<(), Fail> {
             let p = &plans[next_plan];
             next_plan += 1;
             let ty = if p.qtype == T_A { DnsQueryType::A } else { DnsQueryType::Aaaa };
-            let text = name_to_string(&p.name);
+            // (name_to_string abbreviates long labels for display; the query needs the real text)
+            let text = p.name.iter().map(|l| String::from_utf8_lossy(l).into_owned()).collect::<Vec<_>>().join(".");
             let is_local = p.name.last().map(|l| l == b"local").unwrap_or(false);
             let (res, mdns) = {
                 let cx = w.node.iface.context();
@@ -1649,7 +1659,7 @@ pub fn prop() -> Prop {
         parts: vec![Part { name: "resolver", case, quick: 40_000, thorough: 2_000_000 }],
         phases: vec![],
         smoltcp_panic_is_violation: true,
-        rule: "one dns::Socket on a Medium::Ip interface (3/4) or a Medium::Ethernet interface with default routes and scripted neighbours that answer ARP/NS at once, late or never (1/4); IPv4 and/or IPv6 addresses; 0-3 configured servers (IPv4/IPv6, on/off subnet, duplicates, rarely unspecified); 1-3 queries (A/AAAA, 1-5 labels, `.local` => mDNS, start_query / trailing dot / start_query_raw with either mDNS flag) started at drawn instants; a scripted resolver sees every query datagram (independent Ethernet/IP/UDP/DNS decoders) and answers with 0-2 datagrams after a drawn delay (0..31 s), each a correct response with 0-2 (mostly exactly one) attributes drawn wrong: source address (other configured server / stranger), source port (5353/other), destination port, transaction id, question name (other name - preferably a CNAME target used before, with answers for the query's or for that other name -, case, shortened, extended, root, pointer-encoded), question type/class/count, QR, opcode, rcode, TC, answer count, truncation at any byte, garbage; answer section = direct addresses / CNAME chain 1-3 (one target in four padded to 252-259 octets, around the limit of a name) in or out of order ending in the right or wrong record type / unrelated names / empty, plus noise records (unrelated owner, unrelated CNAME, other type, wrong class, bad RDLENGTH, other family), names written plain, compressed, with chained, forward, self, looping and out-of-range pointers, reserved label types or no terminator; plus unsolicited datagrams. Time moves only to Interface::poll_at (optionally a little late), datagram arrival or query start. Non-trivial = a near-miss (exactly one statement attribute wrong, otherwise a usable answer) or a header-and-question-matching response with a CNAME chain or compression pointers was delivered while its query was pending; distinct by digest of configuration, queries and delivered payloads",
+        rule: "one dns::Socket on a Medium::Ip interface (3/4) or a Medium::Ethernet interface with default routes and scripted neighbours that answer ARP/NS at once, late or never (1/4); IPv4 and/or IPv6 addresses; 0-3 configured servers (IPv4/IPv6, on/off subnet, duplicates, rarely unspecified); 1-3 queries (A/AAAA, 1-5 labels, one in sixteen with a first label of 63/64/65 octets, `.local` => mDNS, start_query / trailing dot / start_query_raw with either mDNS flag) started at drawn instants; a scripted resolver sees every query datagram (independent Ethernet/IP/UDP/DNS decoders) and answers with 0-2 datagrams after a drawn delay (0..31 s), each a correct response with 0-2 (mostly exactly one) attributes drawn wrong: source address (other configured server / stranger), source port (5353/other), destination port, transaction id, question name (other name - preferably a CNAME target used before, with answers for the query's or for that other name -, case, shortened, extended, root, pointer-encoded), question type/class/count, QR, opcode, rcode, TC, answer count, truncation at any byte, garbage; answer section = direct addresses / CNAME chain 1-3 (one target in four padded to 252-259 octets, around the limit of a name) in or out of order ending in the right or wrong record type / unrelated names / empty, plus noise records (unrelated owner, unrelated CNAME, other type, wrong class, bad RDLENGTH, other family), names written plain, compressed, with chained, forward, self, looping and out-of-range pointers, reserved label types or no terminator; plus unsolicited datagrams. Time moves only to Interface::poll_at (optionally a little late), datagram arrival or query start. Non-trivial = a near-miss (exactly one statement attribute wrong, otherwise a usable answer) or a header-and-question-matching response with a CNAME chain or compression pointers was delivered while its query was pending; distinct by digest of configuration, queries and delivered payloads",
         assumptions: vec![
             "independent IPv4/IPv6/UDP codec in vkit::indep and the RFC 1035 codec in vcheck/src/c19_dns.rs",
             "a query's source port and transaction id are those of the first datagram the stack emits after start_query (one query is started per poll)",
